@@ -1,8 +1,8 @@
 package main
 
 import (
-	"math"
 	"fmt"
+	"math"
 
 	"github.com/tidwall/geojson/geometry"
 	"verif/mc/exact"
@@ -184,7 +184,7 @@ func runC18(r *rt.Run) {
 	if r.Thorough() {
 		scopes = []scope{{4, -1, 6}, {3, -1, 7}}
 	}
-	r.Rule = "every vertex sequence of length 0..depth over the lattice (nothing filtered: repeated, collinear, self-crossing all occur), each as closed ring, closed ring with repeated closing vertex, rotated ring and open series; plus every rectangle over the 4x4 lattice as a Series (positions, segments, flags, Search, Move) and as the exterior of a Poly, against the ring through its corners; plus series obtained through Move (every sequence of length 3..4 (5) over 3x3 with y in units of 2^-40, ring and line, moved by (3,-5), (0.1,0.3), (0,2^19) and (0,0): attributes must be those of a series built from the moved positions); plus the near-parallel family: rings whose first two edges are M*(P,Q)+e1 and M*(P,Q)+e2 for 12 primitive directions (P,Q), 30 lengths M up to 2^26 lattice units (1/128 steps above 2^18, magnitude <= 2^20), e1,e2 over [-2,2]^2, closed as a triangle or through 6 fourth vertices, every rotation, both directions, with and without repeated closing vertex (flags compared where every float product and partial sum of the library is exact, < 2^53 units^2); non-trivial = cyclic sequence of >= 3 vertices with non-zero area"
+	r.Rule = "every vertex sequence of length 0..depth over the lattice (nothing filtered: repeated, collinear, self-crossing all occur), each as closed ring, closed ring with repeated closing vertex, rotated ring and open series; plus rings of types implemented outside the library (a slice-backed Series, a closed *Line used as ring) as exterior and as hole, for every sequence of length 3..4 (5) over 3x3, against the NewPoly realisation; plus every rectangle over the 4x4 lattice as a Series (positions, segments, flags, Search, Move) and as the exterior of a Poly, against the ring through its corners; plus series obtained through Move (every sequence of length 3..4 (5) over 3x3 with y in units of 2^-40, ring and line, moved by (3,-5), (0.1,0.3), (0,2^19) and (0,0): attributes must be those of a series built from the moved positions); plus the near-parallel family: rings whose first two edges are M*(P,Q)+e1 and M*(P,Q)+e2 for 12 primitive directions (P,Q), 30 lengths M up to 2^26 lattice units (1/128 steps above 2^18, magnitude <= 2^20), e1,e2 over [-2,2]^2, closed as a triangle or through 6 fourth vertices, every rotation, both directions, with and without repeated closing vertex (flags compared where every float product and partial sum of the library is exact, < 2^53 units^2); non-trivial = cyclic sequence of >= 3 vertices with non-zero area"
 	r.Assume = []string{"coordinates integers/half-integers of small magnitude (exact float arithmetic)", "reference: verif/mc/exact Convex/Area2/Segs (literal reading of the statement)"}
 	var sc []string
 	for _, s := range scopes {
@@ -218,11 +218,19 @@ func runC18(r *rt.Run) {
 	c18NearParallel(r)
 	c18Moved(r)
 	c18RectSeries(r)
+	fd := 4
+	if r.Thorough() {
+		fd = 5
+	}
+	foreignRings(r, fd)
 	r.Sample(map[string]any{"ring": [][2]float64{{1, 1}, {2, 0}, {2, 2}, {0, 2}, {0, 0}, {1, 1}}, "note": "reflex vertex at the seam of a closed ring"})
 	r.Sample(map[string]any{"ring": [][2]float64{{0, 0}, {1, 0}, {1, 0}, {0, 1}}, "note": "repeated vertex, unclosed"})
 }
 
 func evalC18(c *rt.Case) (bool, string, string, error) {
+	if c.Kind == "foreign-ring" {
+		return evalForeignRing(c)
+	}
 	if c.Kind == "rect-series" {
 		return evalC18Rect(c)
 	}
